@@ -362,6 +362,11 @@ func oracleC06(f *sessionFam, w *World, res *Result) []Violation {
 		}
 		conns := w.evs(a, "connection")
 		admitted := hs[0].N == 200 || hs[0].N == 101
+		if hs[0].N == 101 && len(conns) == 0 && len(w.evs(a, "c-open")) == 0 {
+			// a WebSocket connection is accepted before the handshake is judged: a refusal then arrives as a
+			// close frame carrying the error text (C05's clause), no open packet, no session
+			admitted = false
+		}
 		eio := 3
 		if sp.EIO == 4 {
 			eio = 4
